@@ -433,3 +433,137 @@ def div_c05(w):
 
 DIV_RULES["C03"] = div_c03
 DIV_RULES["C05"] = div_c05
+
+
+# ------------------------------------------------------------------------- application-layer monitors
+VOTED_KINDS = {"tx.hashes", "tx.pubkey", "tx.process", "tx.replace", "tx.consolidate"}
+RELAYER_NS = ("goat.bitcoin.", "goat.relayer.")
+
+
+def parse_rel_dump(line):
+    body = line[3:] if line.startswith("=> ") else line
+    d = {}
+    for tok in body.split(" ")[1:]:
+        if "=" in tok:
+            k, v = tok.split("=", 1)
+            d[k] = v
+    d["_voters"] = _lst(d.get("voters", "-"))
+    d["_recs"] = {x.split("|")[0]: int(x.split("|")[2]) for x in _lst(d.get("recs", "-"))}
+    d["_on"], d["_off"] = _lst(d.get("on", "-")), _lst(d.get("off", "-"))
+    return d
+
+
+def mon_app(pid, run):
+    hits = []
+    last_rel = None
+    voted_ok = 0
+    in_block_fault = False
+    pre_dumps, post = {}, None
+    halted = False
+    for i, (op, impl) in enumerate(zip(run.ops, run.impl)):
+        kind = op.split(" ")[1]
+        a = kv(op)
+        c = crit(impl)
+        if kind == "reset":
+            last_rel, voted_ok, pre_dumps, halted = None, 0, {}, False
+            continue
+        if impl.strip() == "=> panic-recovered" and pid == "C19":
+            hits.append((i, "the harness itself had to recover a panic of the real code outside any transaction: %s" % op[:80]))
+        if pid == "C07" and kind == "a.det" and a.get("same") == "0":
+            hits.append((i, "same block, same state, different result: %s" % a.get("detail")))
+        if pid == "C18" and kind == "a.export" and a.get("same") == "0":
+            hits.append((i, "export/import is not an identity: %s" % a.get("detail")))
+        if pid == "C08" and kind == "a.process" and a.get("honest") == "1" and a.get("newstatus") == "VALID" and c != "ok":
+            hits.append((i, "honest proposal rejected: %s" % impl[:100]))
+        if pid == "C10":
+            names = _lst(a.get("msgs", "-"))
+            foreign = [n for n in names if not n.startswith(RELAYER_NS)]
+            if kind == "tx.generic" and c == "ok":
+                hits.append((i, "a transaction with non-relayer messages took effect: %s" % names))
+            if kind == "a.checktx" and c == "ok" and (foreign or a.get("memo", "0") != "0" or a.get("signers", "1") != "1"):
+                hits.append((i, "mempool admitted a transaction it must refuse: msgs=%s memo=%s signers=%s" % (names, a.get("memo"), a.get("signers"))))
+            if kind.startswith("tx.") and kind not in ("tx.ethblock", "tx.generic") and c == "ok" and a.get("ante"):
+                if a.get("memo", "0") != "0" or a.get("sigok") == "0" or a.get("seqok") == "0" or a.get("signer") != a.get("proposer"):
+                    hits.append((i, "a relayer transaction passed although memo/signature/sequence/signer is wrong"))
+        if kind == "a.blockstart":
+            in_block_fault = False
+        if kind == "a.end":
+            st = (a.get("newstatus"), a.get("fcustatus"))
+            scripted = st[0] in ("ERROR", "INVALID") or st[1] in ("ERROR", "INVALID")
+            if c.startswith("halt"):
+                halted = True
+                if pid in ("C19", "C13", "C16") and not scripted:
+                    hits.append((i, "block processing failed without an engine fault: %s" % impl[:120]))
+            else:
+                if pid == "C09" and scripted:
+                    hits.append((i, "block committed although the engine answered %s/%s" % st))
+                m = re.search(r"eng=(\S+)", impl)
+                if pid == "C09" and m:
+                    calls = m.group(1).split(",")
+                    np = [x for x in calls if x.startswith("np:")]
+                    fcu = [x for x in calls if x.startswith("fcu:")]
+                    if len(np) != 1 or len(fcu) != 1:
+                        hits.append((i, "engine notified %s" % calls))
+                    else:
+                        h, s_, f = fcu[0][4:].split("/")
+                        if h != np[0][3:] or s_ != f:
+                            hits.append((i, "engine told head %s safe %s finalized %s after payload %s" % (h[:16], s_[:16], f[:16], np[0][3:19])))
+                pre_dumps = {}
+        if kind.startswith("dump.") and pid == "C09":
+            if halted:
+                if kind in pre_dumps and pre_dumps[kind] != impl:
+                    hits.append((i, "state changed although the block was not committed (%s)" % kind))
+                if kind == "dump.goat":
+                    halted = False
+            else:
+                pre_dumps[kind] = impl
+        if kind in VOTED_KINDS and c == "ok":
+            voted_ok += 1
+        if kind == "dump.rel" and impl.startswith("=> rel "):
+            d = parse_rel_dump(impl)
+            if pid == "C02":
+                if last_rel is not None and int(d["seq"]) != int(last_rel["seq"]) + voted_ok:
+                    hits.append((i, "sequence moved from %s to %s although %d voted proposals were accepted" % (last_rel["seq"], d["seq"], voted_ok)))
+                voted_ok = 0
+                last_rel = d
+            if pid == "C16":
+                prop, voters, recs = d.get("prop"), d["_voters"], d["_recs"]
+                if prop in voters:
+                    hits.append((i, "proposer listed among the voters"))
+                if len(set(voters)) != len(voters):
+                    hits.append((i, "duplicate voter"))
+                for m_ in [prop] + voters:
+                    if recs.get(m_) not in (3, 4):
+                        hits.append((i, "member %s has no activated/off-boarding record (%s)" % (m_, recs.get(m_))))
+                if set(d["_on"]) & set([prop] + voters):
+                    hits.append((i, "on-boarding voter already a member"))
+                if not set(d["_off"]) <= set(recs):
+                    hits.append((i, "off-boarding queue names an unknown voter"))
+        if pid == "C16" and kind == "hook.rel.end" and not c.startswith("ok"):
+            hits.append((i, "relayer end-of-block logic failed: %s" % impl[:80]))
+    return hits[:20]
+
+
+for _p in ("C02", "C07", "C08", "C09", "C10", "C16", "C18", "C19"):
+    MONITORS[_p] = mon_app
+
+_prev13 = MONITORS["C13"]
+
+
+def mon_c13_all(pid, run):
+    return (_prev13(pid, run) + mon_app(pid, run))[:20]
+
+
+MONITORS["C13"] = mon_c13_all
+
+
+def div_accepts(kinds):
+    def f(w):
+        return w["op"].split(" ")[1] in kinds and crit(w["impl"]).startswith("ok") and not crit(w["model"]).startswith("ok")
+    return f
+
+
+DIV_RULES["C02"] = div_c01
+DIV_RULES["C08"] = div_accepts({"a.process"})
+DIV_RULES["C10"] = div_accepts({"a.checktx", "tx.generic", "tx.hashes", "tx.pubkey", "tx.deposits", "tx.process", "tx.replace", "tx.finalize", "tx.approve", "tx.consolidate", "tx.newvoter", "tx.accept", "tx.ethblock"})
+DIV_RULES["C09"] = lambda w: w["op"].split(" ")[1] == "a.end" and crit(w["impl"]).startswith("ok") and crit(w["model"]).startswith("halt")
